@@ -58,6 +58,9 @@ func c03Cases() []c03Case {
 					out = append(out, c03Case{ver, "c", "cert", key, verify, false, 0, dev})
 				}
 				out = append(out, c03Case{ver, "c", "cert", key, verify, true, 0, "none"})
+				if ver == 13 && key == "ecdsa" {
+					out = append(out, c03Case{ver, "c", "cert", key, verify, false, 0, "no-server-auth"})
+				}
 			}
 			for policy := 0; policy <= 4; policy++ {
 				for _, dev := range c03DevsClient {
@@ -166,6 +169,10 @@ func c03MustFail(p *C03Params) bool {
 		return true
 	}
 	sigLevel := p.Dev == "other-key" || p.Dev == "sig-flip" || p.Dev == "sig-other-digest" || p.Dev == "scheme-confusion"
+	if p.Dev == "no-server-auth" {
+		// the server sends neither Certificate nor CertificateVerify: nothing binds it to any identity
+		return true
+	}
 	if p.Dev == "ack-instead-of-auth" {
 		// the client never sends Certificate / CertificateVerify / Finished: no server may call that a handshake
 		return true
@@ -395,6 +402,33 @@ func c03Run(rc *RunCtx, params any) {
 
 			return nil
 		}
+	}
+	if p.Dev == "no-server-auth" {
+		// Byzantine server scripted on refdtls; the real server of the pair never hears from the client
+		rogue13 := NewRogue13(s, n, pair.SAddr, pair.CAddr)
+		n.Rewrite = func(em *Emission) []byte {
+			if em.Ep == "c" {
+				rogue13.OnClientDatagram(em)
+			}
+
+			return nil
+		}
+		pair.StartHandshakes(30 * time.Second)
+		s.Run(func() bool { return pair.CHs.Done }, time.Minute)
+		if rogue13.Note != "" {
+			rc.Note("rogue13", rogue13.Note)
+			s.Probe("rogue13-gave-up")
+		}
+		if rogue13.ClientFin {
+			s.Probe("rogue13-saw-client-finished")
+		}
+		s.Probe("must-fail:" + p.Dev)
+		if pair.CHs.Done && pair.CHs.Err == nil {
+			rc.Violate(fmt.Sprintf("established-without-credential:v%d:%s:%s", p.Ver, p.Honest, p.Dev),
+				"the honest client (verify=%v) reported a successful handshake with a server that sent no Certificate and no CertificateVerify", p.Verify)
+		}
+
+		return
 	}
 	pair.StartHandshakes(2 * time.Minute)
 	s.Run(pair.BothDone, 3*time.Minute)
